@@ -1680,3 +1680,31 @@ mut(
     "File exists; this is a destructive operation.",
     expect="ok",
 )
+
+mut(
+    "c15-bare-titles-matched-by-prefix-again",  # regression of the fixed defect 6f98f97
+    "C15",
+    "C15.tokens",
+    DUF,
+    "            elif any(filter(line.startswith, NON_NUMPYDOC_TOKENS_SET)):\n",
+    "            elif any(filter(line.startswith, TOKENS_SET)):\n",
+    mention=("'Returns'",),
+)
+mut(
+    "c15-numpydoc-title-without-underline-test",
+    "C15",
+    "C15.tokens",
+    DUF,
+    "                if next_line.count(\"-\") == len(next_line):\n                    return idx - len(stack)\n",
+    "                return idx - len(stack)\n",
+    mention=("underline",),
+)
+mut(
+    "ok-c15-prefix-test-as-generator",  # behaviour-preserving spelling: must NOT be reported
+    "C15",
+    "C15.tokens",
+    DUF,
+    "            elif any(filter(line.startswith, NON_NUMPYDOC_TOKENS_SET)):\n",
+    "            elif any(line.startswith(tok) for tok in NON_NUMPYDOC_TOKENS_SET):\n",
+    expect="ok",
+)
